@@ -282,6 +282,13 @@ func buildField(ww *conversionVisitor, node sourcewalk.FieldNode) (*descriptorpb
 		proto.SetExtension(desc.Options, validate.E_Field, rules)
 
 		if st.Enum.ListRules != nil {
+			if filtering := st.Enum.ListRules.Filtering; filtering != nil {
+				// default filters must name options of the enum, the list request
+				// built from this field is otherwise unusable
+				if _, err := enumRef.mapValues(filtering.DefaultFilters); err != nil {
+					return nil, fmt.Errorf("list rules default filter: %w", err)
+				}
+			}
 			ww.file.ensureImport(j5ListAnnotationsImport)
 			proto.SetExtension(desc.Options, list_j5pb.E_Field, &list_j5pb.FieldConstraint{
 				Type: &list_j5pb.FieldConstraint_Enum{
